@@ -94,6 +94,9 @@ type Prog struct {
 	Force    bool
 	Seed     int64
 	Profile  string
+	// EnvX is the value of the process environment variable X (a task that prints X without being
+	// passed one sees it)
+	EnvX string
 	// TwoNS: file 1 is included under two namespaces (n1 and m1); refs with odd ID use m1.
 	TwoNS bool
 }
